@@ -40,6 +40,7 @@ struct MVCmp {
     bool nan_equal = true;           // any NaN equals any NaN
     bool ignore_tags = false;
     bool num_by_value = false;       // Int 1 == UInt 1 (non-negative ints compare across kind)
+    bool zero_sign = true;           // false: -0.0 equals +0.0
 };
 
 inline bool mv_eq(const MV& x, const MV& y, const MVCmp& c = MVCmp()) {
@@ -57,7 +58,7 @@ inline bool mv_eq(const MV& x, const MV& y, const MVCmp& c = MVCmp()) {
         case MV::Int: return x.i == y.i;
         case MV::UInt: return x.u == y.u;
         case MV::Half: return x.u == y.u;
-        case MV::Dbl: if (c.nan_equal && x.is_nan() && y.is_nan()) return true; return x.u == y.u;
+        case MV::Dbl: if (c.nan_equal && x.is_nan() && y.is_nan()) return true; if (!c.zero_sign && x.d() == 0.0 && y.d() == 0.0) return true; return x.u == y.u;
         case MV::Str: return x.s == y.s;
         case MV::Bytes: return x.s == y.s && x.has_ext == y.has_ext && (!x.has_ext || x.u == y.u);
         case MV::Arr:
